@@ -619,6 +619,11 @@ RCP<const Basic> floor(const RCP<const Basic> &arg)
                           SymEngine::get_den(s.as_rational_class()));
                 return integer(std::move(quotient));
             }
+            if (is_a<Complex>(*arg)) {
+                const Complex &c = down_cast<const Complex &>(*arg);
+                return add(floor(c.real_part()),
+                           mul(I, floor(c.imaginary_part())));
+            }
             return arg;
         }
         RCP<const Number> _arg = rcp_static_cast<const Number>(arg);
@@ -713,6 +718,11 @@ RCP<const Basic> ceiling(const RCP<const Basic> &arg)
                           SymEngine::get_den(s.as_rational_class()));
                 return integer(std::move(quotient));
             }
+            if (is_a<Complex>(*arg)) {
+                const Complex &c = down_cast<const Complex &>(*arg);
+                return add(ceiling(c.real_part()),
+                           mul(I, ceiling(c.imaginary_part())));
+            }
             return arg;
         }
         RCP<const Number> _arg = rcp_static_cast<const Number>(arg);
@@ -806,6 +816,11 @@ RCP<const Basic> truncate(const RCP<const Basic> &arg)
                 mp_tdiv_q(quotient, SymEngine::get_num(s.as_rational_class()),
                           SymEngine::get_den(s.as_rational_class()));
                 return integer(std::move(quotient));
+            }
+            if (is_a<Complex>(*arg)) {
+                const Complex &c = down_cast<const Complex &>(*arg);
+                return add(truncate(c.real_part()),
+                           mul(I, truncate(c.imaginary_part())));
             }
             return arg;
         }
